@@ -500,12 +500,12 @@ class HashChecker(ProgMixin):
         """
         if self.current is None:
             self.next_file()
-        try:
-            return self.process_current()
-        except StopIteration as itererr:
-            if self.next_file():
+        while True:
+            try:
                 return self.process_current()
-            raise StopIteration from itererr
+            except StopIteration as itererr:
+                if not self.next_file():
+                    raise StopIteration from itererr
 
     class Padder:
         """
